@@ -225,7 +225,12 @@ def payload(rng, n):
 class Mix:
     """online generator of one `mix` scenario"""
 
-    def __init__(self, ctx, rng, label, n_events):
+    def __init__(self, ctx, rng, label, n_events, reenter=False):
+        # reenter: let the stub application re-enter from inside its confirmation callback on
+        # some conforming replies (Lock.frame_reenter: ONE call yields TWO events).  Opt-in:
+        # other checks (C04 `adv` stream) drive this generator with per-event oracles that
+        # read the rig's live state and must see exactly one event per call.
+        self.reenter = reenter
         self.rng = rng
         self.npeers = rng.choice([1, 2, 2, 3, 4, 4])
         self.cfg = rand_cfg(rng)
@@ -321,7 +326,7 @@ class Mix:
             a = {"t": 3, "id": inv, "svc": 200, "seg": 1, "mor": self.rng.choice([1, 1, 0]),
                  "seq": ((tr.lastSequenceNumber or 0) + 1) % 256, "win": tr.actualWindowSize or 1,
                  "hex": payload(self.rng, 9).hex()}
-        if st == 2 and not a.get("seg") and self.rng.random() < 0.25:
+        if self.reenter and st == 2 and not a.get("seg") and self.rng.random() < 0.25:
             re = {"peer": self.rng.choice([p, p, self.rng.randrange(self.npeers)]), "svc": 200, "data": b"re",
                   "id": self.rng.choice([inv, inv, None])}
             self.last_frame = (p, a)
@@ -685,7 +690,7 @@ def shard_mix(ctx, spec):
         rng = ctx.sub_rng("c11/%s/%d" % (kind, i))
         label = "%s-%d" % (kind, i)
         if kind == "mix":
-            locks.append(Mix(ctx, rng, label, n_events).run())
+            locks.append(Mix(ctx, rng, label, n_events, reenter=True).run())
         elif kind == "wrap":
             locks.append(wrap_scenario(ctx, rng, label, n_events))
         elif kind == "exhaust":
@@ -785,7 +790,7 @@ def search(ctx):
     already ran over every stream; widen the mix stream with fresh seeds"""
     for i in range(40):
         rng = ctx.sub_rng("c11/search/%d" % i)
-        Mix(ctx, rng, "search-%d" % i, 300).run()
+        Mix(ctx, rng, "search-%d" % i, 300, reenter=True).run()
         if ctx.failures:
             return
 
